@@ -2,6 +2,8 @@
  * (coap_resource_init, coap_add_attr, coap_resource_set_get_observable, coap_add_resource,
  * coap_print_wellknown, coap_print_link).  One case per line; same format as ocaml/d_link.ml.
  *
+ *   table ops: R <path> <flags> <nattr> { <name> <val> }*  (init, add_attr.., add_resource)
+ *              D <path>                                     (coap_delete_resource)
  *   wk        { R <path> <flags> <nattr> { <name> <val> }* }*  F <filter>  W all
  *   wk        { R ... }*                                        F <filter>  W list { <off> <len> }*
  *   lk <idx>  { R ... }*                                        F ~         W all | list ...
@@ -69,8 +71,25 @@ static int build_table(int i) {
   nres = 0;
   ctx = coap_new_context(NULL);
   if (!ctx) return -1;
-  while (i < vntok && !strcmp(vtok[i], "R")) {
+  while (i < vntok && (!strcmp(vtok[i], "R") || !strcmp(vtok[i], "D"))) {
     size_t n;
+    if (!strcmp(vtok[i], "D")) {       /* D <path> : coap_delete_resource of the resource with that path */
+      uint8_t *db = bytes_of_tok(vtok[i + 1], &n);
+      coap_str_const_t dp = { n, db };
+      coap_resource_t *dr = coap_get_resource_from_uri_path(ctx, &dp);
+      if (dr) {
+        for (int k = 0; k < nres; k++)
+          if (res[k] == dr) {
+            memmove(&res[k], &res[k + 1], sizeof(res[0]) * (size_t)(nres - k - 1));
+            nres--;
+            break;
+          }
+        coap_delete_resource(ctx, dr);
+      }
+      free(db);
+      i += 2;
+      continue;
+    }
     uint8_t *b = bytes_of_tok(vtok[i + 1], &n);
     int fl = atoi(vtok[i + 2]);
     int na = atoi(vtok[i + 3]);
@@ -232,6 +251,13 @@ int main(void) {
   while (next_case(stdin)) {
     int lk = -1, i = 1;
     if (vntok == 0) { puts(""); continue; }
+    if (!strcmp(vtok[0], "lfconst")) {
+      printf("max=%lu uint=%lu wk=", (unsigned long)COAP_PRINT_STATUS_MAX, (unsigned long)UINT_MAX);
+      hex_full(stdout, (const uint8_t *)COAP_DEFAULT_URI_WELLKNOWN, sizeof(COAP_DEFAULT_URI_WELLKNOWN) - 1);
+      fputc('\n', stdout);
+      fflush(stdout);
+      continue;
+    }
     if (!strcmp(vtok[0], "lk")) { lk = atoi(vtok[1]); i = 2; }
     else if (strcmp(vtok[0], "wk")) { puts("ERROR unknown command"); continue; }
     i = build_table(i);
